@@ -2344,6 +2344,11 @@ func (r *Runtime) wrapJSFunc(fn Callable, typ reflect.Type) func(args []reflect.
 				}
 				results[numOut-1] = reflect.ValueOf(err).Convert(typ.Out(numOut - 1))
 			} else {
+				if _, ok := err.(*Exception); !ok && !isUncatchableException(err) {
+					// result conversion error: throw it as a TypeError rather than panicking with a plain Go error,
+					// which no script (and no Runtime API) would catch
+					panic(r.NewTypeError("could not convert function return value: %v", err))
+				}
 				panic(err)
 			}
 		}
